@@ -35,7 +35,8 @@ Lemma pinned_rows_rejected :
   well_protected c35_singleton (map mk_site pinned_filecfg) = false /\
   well_protected c35_singleton (map mk_site pinned_watcher) = false /\
   well_protected c35_singleton (map mk_site pinned_collector_reload) = false /\
-  well_protected c35_singleton (map mk_site pinned_peers) = false.
+  well_protected c35_singleton (map mk_site pinned_peers) = false /\
+  well_protected c35_singleton (map mk_site pinned_sampler) = false.
 Proof. vm_compute. repeat split; reflexivity. Qed.
 
 (* ------------------------------------------------------------------ a concrete conforming run
